@@ -22,13 +22,14 @@ Close(a, b, tol) == Abs(a - b) <= tol
 
 Verdict(c) ==
     LET C   == Tab(c)
-        f   == OptRec(C, c.beta, c.n, c.m)
+        q   == OptSeq(C, c.beta, c.n, c.m)          \* q[T + 1] = optimum of the prefix of length T
+        f   == [T \in 0..c.n |-> q[T + 1]]
         cp  == Range(c.cps)
     IN IF \E i \in 1..Len(c.cps) : c.cps[i] < 1 \/ c.cps[i] > c.n - 1
          THEN "fail:changepoint_out_of_range"
        ELSE IF ~IsStrictlyIncreasing(c.cps) THEN "fail:not_strictly_increasing"
        ELSE IF \E sg \in SegmentsOf(cp, c.n) : LenOf(sg) < c.m THEN "fail:segment_too_short"
-       ELSE IF \E iv \in Intervals(c.n) : \E k \in (iv[1] + c.m)..(iv[2] - c.m) :
+       ELSE IF c.n <= 40 /\ \E iv \in Intervals(c.n) : \E k \in (iv[1] + c.m)..(iv[2] - c.m) :
                   C[<<iv[1], k>>] + C[<<k, iv[2]>>] > C[iv] + c.tol
          THEN "skip:cost_violates_split_inequality"   \* outside the property's quantifier
        ELSE IF \E T \in c.m..c.n : ~Close(c.scores[T], f[T], c.tol) THEN "fail:prefix_optimum"
